@@ -109,7 +109,7 @@ def apply_history(t, atm, h):
 
 
 def make_table(nr, nc, prefix='v', kind='real', zeros=0, unsorted=True, layouts=('csr', 'csc'), md='none',
-               lo=None, dense_only=False, obs_ids=None, samp_ids=None, type_=None, histories=None, **kw):
+               lo=None, dense_only=False, obs_ids=None, samp_ids=None, type_=None, histories=None, late_zero=False, **kw):
     """an arbitrary valid representation state of an nr x nc table, through the public constructor.
     Returns (table, atm) -- atm is the abstract description the oracle works on."""
     b = B()
@@ -123,6 +123,20 @@ def make_table(nr, nc, prefix='v', kind='real', zeros=0, unsorted=True, layouts=
     layout = layouts[choice(len(layouts), 'layout')] if len(layouts) > 1 else layouts[0]
     if layout == 'csc':
         t._data = t._data.tocsc()       # what any sample-axis accessor does (Table._get_col)
+
+    if late_zero:
+        # a stored entry overwritten with 0 AFTER construction, in place: the state Table.subsample leaves behind
+        # (its kernel writes zeros into the data array of the table's own matrix)
+        stored = [k for k in range(len(t._data.data))]
+        pick_ = choice(len(stored) + 1, 'late-zero') - 1
+        if pick_ >= 0:
+            m_ = t._data
+            maj = next(q for q in range(len(m_.indptr) - 1) if int(m_.indptr[q]) <= pick_ < int(m_.indptr[q + 1]))
+            mino = int(m_.indices[pick_])
+            i_, j_ = (maj, mino) if m_.format == 'csr' else (mino, maj)
+            m_.data[pick_] = 0.0
+            dense[i_][j_] = 0.0
+            cells[i_][j_] = 'Z'
 
     def twin():
         """an independent table in the very same representation state (fresh arrays, same terms)"""
